@@ -13,6 +13,8 @@ import (
 	"encoding/json"
 	"fmt"
 	"github.com/cloudwego/hertz/pkg/app/server/render"
+	"github.com/cloudwego/hertz/pkg/common/config"
+	"github.com/cloudwego/hertz/pkg/common/tracer/stats"
 	"github.com/cloudwego/hertz/pkg/common/tracer/traceinfo"
 	"io"
 	"reflect"
@@ -199,6 +201,11 @@ func (markerRender) Instance(string, interface{}) render.Render {
 }
 func (markerRender) Close() error { return nil }
 
+type nopTracer struct{}
+
+func (nopTracer) Start(ctx context.Context, c *app.RequestContext) context.Context { return ctx }
+func (nopTracer) Finish(ctx context.Context, c *app.RequestContext)                {}
+
 // custom operations: arguments the generic generator cannot build (interface-typed)
 var customOps = map[string]func(ctx *app.RequestContext){
 	"RequestContext#HTMLRender=marker": func(ctx *app.RequestContext) { ctx.HTMLRender = markerRender{} },
@@ -206,6 +213,11 @@ var customOps = map[string]func(ctx *app.RequestContext){
 		ti := traceinfo.NewTraceInfo()
 		ti.Stats().SetSendSize(77)
 		ctx.SetTraceInfo(ti)
+	},
+	"RequestContext.GetTraceInfo().Stats().SetLevel(disabled)": func(ctx *app.RequestContext) {
+		if ti := ctx.GetTraceInfo(); ti != nil {
+			ti.Stats().SetLevel(stats.LevelDisabled)
+		}
 	},
 }
 
@@ -249,6 +261,9 @@ func dump(ctx *app.RequestContext) []string {
 	out = append(out, fmt.Sprintf("ctx.FormValue(a)=%q FormValue(x)=%q", ctx.FormValue("a"), ctx.FormValue("x")))
 	out = append(out, fmt.Sprintf("ctx.HTMLRender type=%T", ctx.HTMLRender))
 	out = append(out, fmt.Sprintf("ctx.GetTraceInfo()==nil: %v", ctx.GetTraceInfo() == nil))
+	if ti := ctx.GetTraceInfo(); ti != nil {
+		out = append(out, fmt.Sprintf("trace level=%d", ti.Stats().Level()))
+	}
 	out = append(out, fmt.Sprintf("header-bytes req=%q", ctx.Request.Header.Header()))
 	out = append(out, fmt.Sprintf("header-bytes resp=%q", noDate(string(ctx.Response.Header.Header()))))
 	return out
@@ -276,7 +291,11 @@ func (w *worker) server(streaming bool) *srvh.Server {
 	// A fresh engine (and with it a fresh pool of request contexts) for every case: what the probe observes then depends
 	// on the case's own history only, and a replay reproduces it. (With one engine per worker a context dirtied by an
 	// earlier case could fail a later one - a verdict no replay reproduced.)
-	s := srvh.New(srvh.Opts{Streaming: streaming})
+	// a tracer is registered so that the pooled contexts carry a trace info (engine configuration: level detailed)
+	s := srvh.New(srvh.Opts{Streaming: streaming, Mods: []func(o *config.Options){func(o *config.Options) {
+		o.Tracers = append(o.Tracers, nopTracer{})
+		o.TraceLevel = stats.LevelDetailed
+	}}})
 	s.E.Use(recovery.Recovery())
 	s.E.POST("/dirty/:id", func(c context.Context, ctx *app.RequestContext) {
 		w.dirtyP = ctx
